@@ -1931,6 +1931,19 @@ impl NodeMut for XmlElement {
             return Err(error::DomException::WrongDocumentErr)?;
         }
 
+        if let XmlNode::ExpandedText(text) = old_child {
+            // a merged text node stands for every item of its run, not only for the first one.
+            if !self.element.borrow().children().iter().any(|v| v.id() == old_child.id()) {
+                return Err(error::DomException::NotFoundErr)?;
+            }
+
+            for item in text.data.as_slice() {
+                self.element.borrow().delete(item.id());
+            }
+
+            return Ok(old_child.clone());
+        }
+
         match self.element.borrow().delete(old_child.id()) {
             Some(v) => Ok(XmlNode::from(v)),
             _ => Err(error::DomException::NotFoundErr)?,
